@@ -64,7 +64,10 @@ OptString(d, od) ==
      (IF od.long # E THEN <<DASH, od.short, 44, SPACE, DASH, DASH>> \o NsLong(d, od) ELSE <<DASH, od.short>>)
   ELSE IF od.long # E THEN <<DASH, DASH>> \o NsLong(d, od) ELSE E
 
-FlagLike(od) == od.kind \in {"flag", "counter", "ptrflag", "func0", "help"}      \* !canArgument (option.go:304-310)
+\* !canArgument (option.go:304-310): bool, []bool, *bool, func() - unless the field itself is an Unmarshaler.
+\* Named deviation: a slice of a bool-kinded Unmarshaler type ([]TB, []*TB) is not itself an Unmarshaler and its
+\* element kind is bool, so the code treats it as a flag without argument (every occurrence then fails to convert "").
+FlagLike(od) == od.kind \in {"flag", "counter", "ptrflag", "func0", "help"} \/ (od.vtype = "tb" /\ od.kind \in {"slice", "sliceptr"})
 CanArgument(od) == ~FlagLike(od)
 SignedNumber(od) == od.kind \in {"scalar", "slice", "ptr", "sliceptr"} /\ (IsSignedInt(od.vtype) \/ IsFloat(od.vtype) \/ od.vtype = "duration")
 MultiValued(od) == od.kind \in {"slice", "map", "counter", "sliceptr"}
@@ -159,7 +162,7 @@ ApplySet(s, o, hasVal, txt, src) ==
               ELSE ConvScalar(od.vtype, od.base, t, s.ftab)
   IN
   IF od.choices # <<>> /\ ~hasVal /\ Defect("ChoiceOnFlagPanics") THEN fail(Err("panic", E))
-  ELSE IF od.choices # <<>> /\ hasVal /\ ~InSeq(od.choices, txt) THEN fail(Err("ErrInvalidChoice", OptString(s.d, od)))
+  ELSE IF od.choices # <<>> /\ hasVal /\ ~InSeq(od.choices, txt) THEN fail([Err("ErrInvalidChoice", OptString(s.d, od)) EXCEPT !.names = od.choices])    \* the message lists every allowed value
   ELSE IF od.kind \in {"help", "func0"} /\ hasVal THEN fail(Err("ErrNoArgumentForBool", OptString(s.d, od)))   \* a value from an INI entry or the environment
   ELSE IF od.kind = "help" THEN fail(Err("ErrHelp", E))
   ELSE IF od.kind = "func0" THEN
